@@ -347,40 +347,41 @@ Proof.
   destruct (a_children a); [|intros H; inversion H; subst; apply SQ_of_keeps, keeps_refl].
   destruct (a_st a) eqn:Est; try (intros H; inversion H; subst; apply SQ_of_keeps, keeps_refl).
   intros H.
-  destruct (handle roles s w TT 0 snd) as [[s1 o1] p1] eqn:E1. unfold bind in H. destruct p1.
-  - inversion H; subst. apply SQ_of_keeps. eapply keeps_handle; exact E1.
+  destruct (provide s (a_tok a)) as [s0 inst] eqn:Ep.
+  assert (A0 : actors s0 = actors s) by (unfold provide in Ep; inversion Ep; subst; reflexivity).
+  assert (R0 : registry s0 = registry s) by (unfold provide in Ep; inversion Ep; subst; reflexivity).
+  assert (Ea0 : get s0 w = Some a) by (unfold get in *; rewrite A0; exact Ea).
+  assert (K0 : keeps u t s s0) by (apply keeps_same_actors; exact A0).
+  destruct (handle roles s0 w TT 0 snd) as [[s1 o1] p1] eqn:E1. unfold bind in H. destruct p1.
+  - inversion H; subst. apply SQ_of_keeps. eapply keeps_trans; [exact K0|eapply keeps_handle; exact E1].
   - destruct (handle roles s1 w TTS 0 snd) as [[s2 o2] p2] eqn:E2.
-    assert (K12 : keeps u t s s2) by (eapply keeps_trans; [eapply keeps_handle; exact E1|eapply keeps_handle; exact E2]).
+    assert (K12 : keeps u t s s2) by (eapply keeps_trans; [exact K0|]; eapply keeps_trans; [eapply keeps_handle; exact E1|eapply keeps_handle; exact E2]).
     destruct p2; [inversion H; subst; apply SQ_of_keeps; exact K12|].
-    destruct (keep_handle roles _ _ _ _ _ _ _ _ E1 w a Ea) as (a1 & Ha1 & S1 & (I1 & _)).
+    destruct (keep_handle roles _ _ _ _ _ _ _ _ E1 w a Ea0) as (a1 & Ha1 & S1 & (I1 & _)).
     destruct (keep_handle roles _ _ _ _ _ _ _ _ E2 w a1 Ha1) as (a2 & Ha2 & S2 & (I2 & _)).
     destruct (a_tok a =? t) eqn:Heqb.
     + (* the restarting object carries address t: its own OnTerminated is the marker *)
       assert (Hs1 : is_sys (a_tok a1) = false) by (rewrite I1; apply Z.eqb_eq in Heqb; rewrite Heqb; exact t_not_sys).
       destruct (handle_emits s1 w a1 TTS 0 snd s2 o2 false Ha1 Hs1 E2) as (o2' & ->).
-      destruct (provide s2 (a_tok a)) as [s3 inst].
       match type of H with context [start_instance ?r ?x ?y ?z ?w0] => destruct (start_instance r x y z w0) as [[s9 o9] p9] eqn:E9 end.
       inversion H; subst s' o p. apply SQ_marker.
       rewrite marker_app. apply orb_true_iff. right. apply marker_head. cbn [marker1]. rewrite I1. exact Heqb.
     + assert (Hne : a_tok a <> t) by (apply Z.eqb_neq; exact Heqb).
-      destruct (provide s2 (a_tok a)) as [s3 inst] eqn:Ep.
       match type of H with context [start_instance ?r ?x ?y ?z ?w0] => destruct (start_instance r x y z w0) as [[s9 o9] p9] eqn:E9 end.
       inversion H; subst s' o p. apply SQ_of_keeps.
-      assert (X2 : ext s s2) by (eapply ext_trans; [eapply ext_handle; exact E1|eapply ext_handle; exact E2]).
-      assert (A3 : actors s3 = actors s2) by (unfold provide in Ep; inversion Ep; subst; reflexivity).
-      assert (R3 : registry s3 = registry s2) by (unfold provide in Ep; inversion Ep; subst; reflexivity).
-      assert (RI3 : RI s3).
-      { eapply RI_ext; [exact HR|]. eapply ext_trans; [exact X2|]. apply ext_of_keep; [apply keep_same_actors; exact A3|exact R3]. }
-      assert (Ha3 : get s3 w = Some a2) by (unfold get in *; rewrite A3; exact Ha2).
-      set (s4 := upd_actor s3 w (fun b => w_st Alive (w_inst inst b))).
+      assert (X2 : ext s s2).
+      { eapply ext_trans; [apply ext_of_keep; [apply keep_same_actors; exact A0|exact R0]|].
+        eapply ext_trans; [eapply ext_handle; exact E1|eapply ext_handle; exact E2]. }
+      assert (RI3 : RI s2) by (eapply RI_ext; [exact HR|exact X2]).
+      set (s4 := upd_actor s2 w (fun b => w_st Alive (w_inst inst b))).
       assert (R4 : RI s4).
       { (* the update changes status and instance number only: tokens and registry stay *)
         intros t' u' Hl. unfold s4 in *. rewrite regsame_upd_actor in Hl. destruct (RI3 t' u' Hl) as (b & Hb & Htb).
-        unfold upd_actor. rewrite Ha3. destruct (Nat.eq_dec w u') as [->|Hn].
-        - rewrite Ha3 in Hb. inversion Hb; subst. eexists. split; [eapply get_put_same; exact Ha3|reflexivity].
+        unfold upd_actor. rewrite Ha2. destruct (Nat.eq_dec w u') as [->|Hn].
+        - rewrite Ha2 in Hb. inversion Hb; subst. eexists. split; [eapply get_put_same; exact Ha2|reflexivity].
         - exists b. split; [rewrite get_put_other by assumption; exact Hb|exact Htb]. }
       assert (K4 : keeps u t s s4).
-      { eapply keeps_trans; [exact K12|]. eapply keeps_trans; [apply keeps_same_actors; exact A3|]. unfold s4. apply keeps_upd_actor; ks. }
+      { eapply keeps_trans; [exact K12|]. unfold s4. apply keeps_upd_actor; ks. }
       assert (K5 : keeps u t s4 (deliver_sys s4 (a_tok a) (a_tok a) SResume)).
       { apply keeps_deliver_sys_other; [exact R4|right; exact Hne]. }
       eapply keeps_trans; [exact K4|]. eapply keeps_trans; [exact K5|]. eapply keeps_start_instance; exact E9.
